@@ -178,3 +178,421 @@ Example C34_example_first_access_cold_second_warm :
   snd (load_account d s 5) = true /\ snd (load_account d (fst (load_account d s 5)) 5) = false /\
   snd (load_account d s 9) = false.
 Proof. vm_compute. auto. Qed.
+
+(* ================================================================================================
+   C34 on the reference interpreter (composition).  Model/Step.v (one instruction, with the same
+   order of checks as the Rust instruction functions), Model/Evm.v (do_call, the interpreter
+   loop, run_tx with load_access_list / deduct_caller / apply_eip7702_auth_list) over the journaled
+   state of Model/Host.v.  This interpreter is tied to the Rust code by the C01 correspondence
+   runs.  Proofs in Proofs/EvmAccessProofs.v.  Fork: from BERLIN (en (w_spec W) BERLIN = true).
+   ================================================================================================ *)
+From RevmV Require Import Model.Step Model.Evm Proofs.EvmHistoryProofs Proofs.EvmAccessProofs.
+From RevmV Require Model.Frames Model.GasCalc Proofs.HostRevert Proofs.FramesProofs Proofs.EvmEtherProofs.
+
+(* ---- 1. instructions.  The prices are the EIP-2929 constants: *)
+Theorem C34_interpreter_cold_price_iff_not_warm :
+  forall w, (acct_price w = 2600 <-> w = false) /\ (acct_price w = 100 <-> w = true) /\
+            (slot_price w = 2100 <-> w = false) /\ (slot_price w = 100 <-> w = true).
+Proof. intros [|]; cbn; repeat split; intros; try reflexivity; try discriminate. Qed.
+
+(* gas!(c) takes exactly c or halts the frame OutOfGas with the gas untouched *)
+Theorem C34_interpreter_gas_macro_charges_exactly :
+  forall c I k, with_gas c I k = if c <=? rem I then k (charge I c) else halt R_OutOfGas I.
+Proof. exact with_gas_charge. Qed.
+
+(* from BERLIN on, at an access-causing opcode, [step] is the instruction function below *)
+Theorem C34_interpreter_step_dispatch :
+  forall W G F I, en (w_spec W) E.BERLIN = true ->
+    let op := opcode_at F (i_pc I) in
+    (op = 0x31 -> step W G F I = op_balance W G I) /\
+    (op = 0x3b -> step W G F I = op_extcodesize W G I) /\
+    (op = 0x3c -> step W G F I = op_extcodecopy W G I) /\
+    (op = 0x3f -> step W G F I = op_extcodehash W G I) /\
+    (op = 0x54 -> step W G F I = op_sload W G F I) /\
+    (op = 0x55 -> step W G F I = op_sstore W G F I) /\
+    (op = 0xff -> step W G F I = op_selfdestruct W G F I) /\
+    (In op [0xf1; 0xf2; 0xf4; 0xfa] -> step W G F I = finish_pre W G F (op_call_pre F (scheme_of_op op) I)).
+Proof. exact step_access_dispatch. Qed.
+
+(* BALANCE: charged 2600 exactly when the address is not warm in the pre-state, 100 otherwise;
+   afterwards the address is warm and no other address or slot changes status *)
+Theorem C34_interpreter_balance :
+  forall W G I a r, en (w_spec W) E.BERLIN = true -> i_stk I = a :: r ->
+    let x := addr_of_word a in
+    op_balance W G I =
+      (set_s G (ld W G x),
+       with_gas (acct_price (acc_warm (gdb W G) (gs G) x)) (set_stk I r)
+         (push_next (match Host.st (ld W G x) x with Some acc => Host.a_bal acc | None => 0 end))) /\
+    warms_addr (gdb W G) (gs G) (ld W G x) x.
+Proof. exact op_balance_access. Qed.
+
+Theorem C34_interpreter_extcodehash :
+  forall W G I a r, en (w_spec W) E.BERLIN = true -> i_stk I = a :: r ->
+    let x := addr_of_word a in
+    op_extcodehash W G I =
+      (set_s G (ld W G x),
+       with_gas (acct_price (acc_warm (gdb W G) (gs G) x)) (set_stk I r)
+         (push_next (match Host.st (ld W G x) x with
+                     | Some acc => if Host.is_empty_acc acc then 0
+                                   else if Host.a_code acc =? 0 then KECCAK_EMPTY else Host.a_code acc
+                     | None => 0 end))) /\
+    warms_addr (gdb W G) (gs G) (ld W G x) x.
+Proof. exact op_extcodehash_access. Qed.
+
+Theorem C34_interpreter_extcodesize :
+  forall W G I a r, en (w_spec W) E.BERLIN = true -> i_stk I = a :: r ->
+    let x := addr_of_word a in
+    fst (op_extcodesize W G I) = set_s G (ld W G x) /\
+    warms_addr (gdb W G) (gs G) (ld W G x) x /\
+    forall b, code_bytes (g_codes G) (match Host.st (ld W G x) x with Some acc => Host.a_code acc | None => 0 end) = Some b ->
+      snd (op_extcodesize W G I) =
+        with_gas (acct_price (acc_warm (gdb W G) (gs G) x)) (set_stk I r) (push_next (zlen b)).
+Proof. exact op_extcodesize_access. Qed.
+
+(* EXTCODECOPY: the access price is the base of the copy cost (+ 3 per word, + memory) *)
+Theorem C34_interpreter_extcodecopy :
+  forall W G I a mo cof len r, en (w_spec W) E.BERLIN = true -> i_stk I = a :: mo :: cof :: len :: r ->
+    let x := addr_of_word a in
+    fst (op_extcodecopy W G I) = set_s G (ld W G x) /\
+    warms_addr (gdb W G) (gs G) (ld W G x) x /\
+    forall code, code_bytes (g_codes G) (match Host.st (ld W G x) x with Some acc => Host.a_code acc | None => 0 end) = Some code ->
+      snd (op_extcodecopy W G I) =
+        usize_or_fail len (set_stk I r) (fun len =>
+          with_gas_opt (GasCalc.obind (GasCalc.cost_per_word len G.COPY)
+                          (fun w => GasCalc.checked_add64 (acct_price (acc_warm (gdb W G) (gs G) x)) w)) (set_stk I r) (fun I1 =>
+            if len =? 0 then next I1
+            else usize_or_fail mo I1 (fun mo =>
+                 let cof := Z.min (sat_u64 cof) (zlen code) in
+                 mem_resize I1 mo len (fun I2 =>
+                   mem_op (M.set_data (i_mem I2) mo cof len code) I2 next)))).
+Proof. exact op_extcodecopy_access. Qed.
+
+(* SLOAD: 2100 exactly when (executing address, key) is not warm, 100 otherwise *)
+Theorem C34_interpreter_sload :
+  forall W G F I k r s1 v cold, en (w_spec W) E.BERLIN = true -> i_stk I = k :: r ->
+    Host.sload (gdb W G) (gs G) (f_target F) k = Some (s1, v, cold) ->
+    op_sload W G F I =
+      (set_s G s1,
+       with_gas (slot_price (slot_warm (gdb W G) (gs G) (f_target F) k)) I (fun I1 => next (set_stk I1 (v :: r)))) /\
+    warms_slot (gdb W G) (gs G) s1 (f_target F) k.
+Proof. exact op_sload_access. Qed.
+
+(* SSTORE: the EIP-2200 schedule (100 / 20000 / 2900) plus 2100 exactly when the slot is not warm *)
+Theorem C34_interpreter_sstore :
+  forall W G F I k v r s1 orig pres cold,
+    en (w_spec W) E.BERLIN = true -> f_static F = false -> i_stk I = k :: v :: r ->
+    Host.sstore (gdb W G) (gs G) (f_target F) k v = Some (s1, orig, pres, cold) ->
+    let sr := GasCalc.mkSStore orig pres v in
+    op_sstore W G F I =
+      (set_s G s1,
+       with_gas_opt (sstore_price (rem (set_stk I r)) sr (slot_warm (gdb W G) (gs G) (f_target F) k)) (set_stk I r) (fun I1 =>
+         match Gas.record_refund (i_gas I1) (GasCalc.sstore_refund (spec_of_z (w_spec W)) sr) with
+         | Some g' => next (set_gas I1 g')
+         | None => SBad BAD_PANIC
+         end)) /\
+    warms_slot (gdb W G) (gs G) s1 (f_target F) k.
+Proof. exact op_sstore_access. Qed.
+
+(* SELFDESTRUCT: 5000 (+ 25000 new account) plus 2600 exactly when the beneficiary is not warm *)
+Theorem C34_interpreter_selfdestruct :
+  forall W G F I t r s1 hv te prev cold g1,
+    en (w_spec W) E.BERLIN = true -> f_static F = false -> i_stk I = t :: r ->
+    Host.selfdestruct (gdb W G) (gs G) (f_target F) (addr_of_word t) = Some (s1, hv, te, prev, cold) ->
+    (if negb (en (w_spec W) E.LONDON) && negb prev
+     then Gas.record_refund (i_gas (set_stk I r)) G.SELFDESTRUCT else Some (i_gas (set_stk I r))) = Some g1 ->
+    op_selfdestruct W G F I =
+      (set_s G s1,
+       with_gas (selfdestruct_price hv te (acc_warm (gdb W G) (gs G) (addr_of_word t))) (set_gas (set_stk I r) g1)
+         (fun I1 => SEnd R_SelfDestruct [] I1)) /\
+    warms_addr (gdb W G) (gs G) s1 (addr_of_word t).
+Proof. exact op_selfdestruct_access. Qed.
+
+(* CALL / CALLCODE / DELEGATECALL / STATICCALL: the callee is the address in the second stack
+   word; the charge is 2600 / 100 by the callee's status, plus 2600 / 100 by the status of its
+   EIP-7702 delegation target (after the callee was loaded), plus 9000 for value and 25000 for
+   a new account; both are warm afterwards *)
+Theorem C34_interpreter_call_target :
+  forall F sch I c I', op_call_pre F sch I = PCall c I' ->
+    exists lg to r, i_stk I = lg :: to :: r /\ cp_to c = addr_of_word to /\ cp_scheme c = sch.
+Proof. exact op_call_pre_target. Qed.
+
+Theorem C34_interpreter_call :
+  forall W G F c I, en (w_spec W) E.BERLIN = true ->
+    let d := gdb W G in let to := cp_to c in
+    let s1 := ld W G to in
+    let s2 := match deleg_target d (gs G) to with Some t => fst (Host.load_account d s1 t) | None => s1 end in
+    let dwarm := option_map (acc_warm d s1) (deleg_target d (gs G) to) in
+    exists empty,
+      op_call_post W G F c I =
+        (set_s G s2,
+         with_gas (call_price (acc_warm d (gs G) to) dwarm (negb (cp_value c =? 0)) empty) I (call_request W F c)) /\
+      warms_addr d (gs G) s1 to /\
+      (forall t, deleg_target d (gs G) to = Some t -> warms_addr d s1 s2 t).
+Proof. exact op_call_post_access. Qed.
+
+(* ---- 2. frames.  exec_nc_h is the create-free interpreter exec_nc (EvmHistoryProofs; whatever
+   exec_nc computes, exec computes: exec_nc_sound) returning in addition the history of
+   journaled-state operations it performed: per instruction step_hops, per call the operations
+   of make_call_frame, the child's history and the commit / revert of call_return. *)
+Theorem C34_interpreter_step_history :
+  forall W G F I, ghist W G (fst (step W G F I)) (step_hops W G F I).
+Proof. exact step_hist. Qed.
+
+Theorem C34_interpreter_history_erases :
+  forall W f G F I, xerase (exec_nc_h f W G F I) = exec_nc f W G F I.
+Proof. exact exec_nc_h_erase. Qed.
+
+Theorem C34_interpreter_frame_history_replays :
+  forall W f G F I G' r h, exec_nc_h f W G F I = XDone (G', r, h) ->
+    g_codes G' = g_codes G /\ Forall okhop h /\ wbh 0 h = Some 0%nat /\
+    Host.run_hops (gdb W G) (g_sc G) h = Some (g_sc G').
+Proof. exact (fun W f => exec_nc_hist W f). Qed.
+
+(* The is_cold answers obtained along the frame's history (by part 1: what its instructions were
+   charged by) are exactly the answers of the accessed-set specification of Spec/AccessSpec.v
+   (sets copied into a frame, dropped when it reverts, kept when it commits), started from sets
+   w describing the warm status at the frame's start; the specification's final sets describe
+   the warm status at the frame's end. *)
+Theorem C34_interpreter_frame_answers_refine_accessed_sets :
+  forall W f G F I G' r h w,
+    exec_nc_h f W G F I = XDone (G', r, h) ->
+    WF (gdb W G) (gs G) -> R (gdb W G) (gs G) w ->
+    let d := gdb W G in
+    let sp := spec_run (w, []) h (model_anns d (gs G, []) h) in
+    Host.run_hops d (gs G, []) h = Some (gs G', []) /\
+    snd sp = model_trace d (gs G, []) h /\
+    R d (gs G') (fst (fst sp)) /\ snd (fst sp) = [] /\ WF d (gs G').
+Proof. exact frame_answers_refine. Qed.
+
+Theorem C34_interpreter_call_answers_refine_accessed_sets :
+  forall W f G c G' r h w,
+    do_call_h W (exec_nc_h f W) G c = XDone (G', r, h) -> (cq_transfers c = true -> 0 <= cq_value c) ->
+    WF (gdb W G) (gs G) -> R (gdb W G) (gs G) w ->
+    let d := gdb W G in
+    let sp := spec_run (w, []) h (model_anns d (gs G, []) h) in
+    Host.run_hops d (gs G, []) h = Some (gs G', []) /\
+    snd sp = model_trace d (gs G, []) h /\
+    R d (gs G') (fst (fst sp)) /\ WF d (gs G').
+Proof. exact call_answers_refine. Qed.
+
+(* an access made inside a frame that does not end ok is forgotten: after the call every slot
+   has the warm status it had before the call, every address other than the callee and its
+   delegation target too; the callee (loaded before the checkpoint) stays warm *)
+Theorem C34_interpreter_failed_child_forgets_accesses :
+  forall W f G c G' r s0 sc1 cp,
+    let d := gdb W G in
+    HostRevert.Inv d s0 (gs G) (snd (g_sc G)) ->
+    (cq_transfers c = true -> 0 <= cq_value c) ->
+    Frames.make_call_frame d (g_sc G) (call_inputs_of W c) = Some (sc1, Frames.FFrame cp) ->
+    do_call W (exec_nc f W) G c = XDone (G', r) -> is_ok (ir_res r) = false ->
+    let s_ld := fst (fst (fst (Host.load_account_delegated d (gs G) (cq_bytecode c)))) in
+    (forall a, acc_warm d (gs G') a = acc_warm d s_ld a) /\
+    (forall a k, slot_warm d (gs G') a k = slot_warm d s_ld a k) /\
+    (forall a k, slot_warm d (gs G') a k = slot_warm d (gs G) a k) /\
+    (forall a, a <> cq_bytecode c -> deleg_target d (gs G) (cq_bytecode c) <> Some a ->
+               acc_warm d (gs G') a = acc_warm d (gs G) a) /\
+    acc_warm d (gs G') (cq_bytecode c) = true.
+Proof. exact failed_child_forgets_accesses. Qed.
+
+(* what is warm below all open checkpoints is never forgotten: for EVERY history inside the C06
+   contract (any nesting of checkpoints, commits, reverts, creates) *)
+Theorem C34_warm_below_checkpoints_never_forgotten :
+  forall d h s s' cps',
+    WF d s -> contract d (s, []) h -> Host.run_hops d (s, []) h = Some (s', cps') ->
+    (forall a, acc_warm d s a = true -> acc_warm d s' a = true) /\
+    (forall a k, slot_warm d s a k = true -> slot_warm d s' a k = true).
+Proof. exact warm_never_forgotten. Qed.
+
+Theorem C34_interpreter_call_keeps_warm :
+  forall W f G c G' r,
+    do_call W (exec_nc f W) G c = XDone (G', r) -> (cq_transfers c = true -> 0 <= cq_value c) ->
+    WF (gdb W G) (gs G) ->
+    (forall a, acc_warm (gdb W G) (gs G) a = true -> acc_warm (gdb W G) (gs G') a = true) /\
+    (forall a k, slot_warm (gdb W G) (gs G) a k = true -> slot_warm (gdb W G) (gs G') a k = true).
+Proof. exact call_keeps_warm. Qed.
+
+(* the history entry of an access-causing instruction and the answer recorded for it: the
+   answer is the negated warm status of the very pre-state the price of part 1 is computed from *)
+Theorem C34_interpreter_access_instruction_history :
+  forall W G F I, en (w_spec W) E.BERLIN = true -> In (opcode_at F (i_pc I)) access_ops ->
+    step_hops W G F I = op_hops W G F I (opcode_at F (i_pc I)).
+Proof. exact step_hops_access. Qed.
+
+Theorem C34_interpreter_history_answers_are_warm_status :
+  forall d s o,
+    match o with
+    | Host.HLoad a => model_cold d s o = [negb (acc_warm d s a)]
+    | Host.HLoadDelegated a =>
+        model_cold d s o =
+          negb (acc_warm d s a) ::
+          match deleg_target d s a with Some t => [negb (acc_warm d (fst (Host.load_account d s a)) t)] | None => [] end
+    | Host.HSload a k => forall r, Host.sload d s a k = Some r -> model_cold d s o = [negb (slot_warm d s a k)]
+    | Host.HSstore a k v => forall r, Host.sstore d s a k v = Some r -> model_cold d s o = [negb (slot_warm d s a k)]
+    | Host.HSelfdestruct a t => forall r, Host.selfdestruct d s a t = Some r -> model_cold d s o = [negb (acc_warm d s t)]
+    | _ => model_cold d s o = []
+    end.
+Proof. exact model_cold_is_warm_status. Qed.
+
+(* one instruction end to end (SLOAD, BALANCE): charge, recorded operation, recorded answer, effect *)
+Theorem C34_interpreter_sload_step :
+  forall W G F I k r s1 v cold,
+    en (w_spec W) E.BERLIN = true -> opcode_at F (i_pc I) = 0x54 -> i_stk I = k :: r ->
+    Host.sload (gdb W G) (gs G) (f_target F) k = Some (s1, v, cold) ->
+    let w := slot_warm (gdb W G) (gs G) (f_target F) k in
+    step W G F I = (set_s G s1, with_gas (slot_price w) I (fun I1 => next (set_stk I1 (v :: r)))) /\
+    step_hops W G F I = [Host.HSload (f_target F) k] /\
+    model_cold (gdb W G) (gs G) (Host.HSload (f_target F) k) = [negb w] /\
+    warms_slot (gdb W G) (gs G) s1 (f_target F) k.
+Proof. exact step_sload_summary. Qed.
+
+Theorem C34_interpreter_balance_step :
+  forall W G F I a r,
+    en (w_spec W) E.BERLIN = true -> opcode_at F (i_pc I) = 0x31 -> i_stk I = a :: r ->
+    let x := addr_of_word a in let w := acc_warm (gdb W G) (gs G) x in
+    step W G F I =
+      (set_s G (ld W G x),
+       with_gas (acct_price w) (set_stk I r)
+         (push_next (match Host.st (ld W G x) x with Some acc => Host.a_bal acc | None => 0 end))) /\
+    step_hops W G F I = [Host.HLoad x] /\
+    model_cold (gdb W G) (gs G) (Host.HLoad x) = [negb w] /\
+    warms_addr (gdb W G) (gs G) (ld W G x) x.
+Proof. exact step_balance_summary. Qed.
+
+(* ---- 3. the transaction.  tx_pre_state is the pre-execution part of run_tx
+   (load_access_list, deduct_caller, apply_eip7702_auth_list); run_tx creates its first frame
+   in that state. *)
+Theorem C34_interpreter_run_tx_first_frame :
+  forall fuel W to res, run_tx fuel W = XDone res -> w_to W = Some to ->
+    exists G2 G3 r, tx_pre_state W = Some G2 /\
+      do_call W (exec fuel W) G2 (EvmEtherProofs.tx_call W to) = XDone (G3, r) /\ tr_reason res = ir_res r.
+Proof. exact run_tx_first_frame. Qed.
+
+(* after load_access_list (any list, repeated entries included) the warm status is the
+   specification's initial_sets for the model's pre-warmed predicate and the access list *)
+Theorem C34_interpreter_access_list_sets :
+  forall W, let G0 := load_access_list W (gstate_new W) in
+    R (gdb W G0) (gs G0) (initial_sets (warm_preloaded W) (w_access_list W)) /\
+    all_warm (gs G0) /\ g_codes G0 = w_codes W /\ snd (g_sc G0) = [].
+Proof. exact access_list_sets. Qed.
+
+(* when the first frame is created: precompiles of the fork, coinbase from SHANGHAI, the
+   model's history address from PRAGUE (warm_preloaded), the access list, the sender, and from
+   PRAGUE the authorities of the tuples that pass the chain-id / nonce-range / signature checks;
+   the warm slots are exactly the access-list slots *)
+Theorem C34_interpreter_warm_set_at_first_frame :
+  forall W G2, tx_pre_state W = Some G2 ->
+    (forall a, acc_warm (gdb W G2) (gs G2) a =
+               (warm_preloaded W a || al_acc (w_access_list W) a || (a =? w_caller W)
+                || (en (w_spec W) E.PRAGUE && mem_z (auth_warmed (chain_of W) (w_auth_list W)) a))) /\
+    (forall a k, slot_warm (gdb W G2) (gs G2) a k = al_slot (w_access_list W) a k).
+Proof. exact tx_pre_state_warm. Qed.
+
+(* against Spec/TxWarmSpec.v, below PRAGUE: equality, the recipient / created address being
+   loaded by the first frame before its checkpoint (C34_interpreter_recipient_is_warm) *)
+Theorem C34_interpreter_initial_sets_below_prague :
+  forall W G2 dest accts, tx_pre_state W = Some G2 -> en (w_spec W) E.PRAGUE = false ->
+    (forall a, as_acc (tx_initial_sets (txw_of W dest accts)) a = acc_warm (gdb W G2) (gs G2) a || (a =? dest)) /\
+    (forall a k, as_slot (tx_initial_sets (txw_of W dest accts)) a k = slot_warm (gdb W G2) (gs G2) a k).
+Proof. exact tx_pre_state_is_spec_below_prague. Qed.
+
+(* from PRAGUE: the authorities agree with EIP-7702 steps 1-4 of the specification; PARTIAL:
+   (i) the delegation target of tx.to is stated on the model's delegation (deleg_target, from the
+   code table), not related to the specification's account abstraction (tw_accts); (ii) the two
+   EIP-2935 addresses are excluded: the model's constant differs from the tree's, see below *)
+Theorem C34_interpreter_initial_sets_from_prague_partial :
+  forall W G2 dest accts, tx_pre_state W = Some G2 -> en (w_spec W) E.PRAGUE = true ->
+    Forall (fun t => snd t <= pow64 - 1) (w_auth_list W) ->
+    (forall a, a <> BLOCKHASH_STORAGE_ADDRESS -> a <> HISTORY_STORAGE_ADDRESS ->
+       as_acc (tx_initial_sets (txw_of W dest accts)) a =
+       acc_warm (gdb W G2) (gs G2) a || (a =? dest)
+       || (match w_to W with Some _ => true | None => false end && opt_is (deleg_of (txw_of W dest accts) dest) a)) /\
+    (forall a k, as_slot (tx_initial_sets (txw_of W dest accts)) a k = slot_warm (gdb W G2) (gs G2) a k).
+Proof. exact tx_pre_state_is_spec_from_prague. Qed.
+
+(* "the EIP-2935 address as the tree defines it" is false of Model/Evm.v: the tree
+   (crates/primitives/src/constants.rs) and Spec/TxWarmSpec.v use 0x25a2...a4fb, Model/Evm.v
+   pre-warms 0x0000F908...2935.  Witness: any PRAGUE world. *)
+Theorem C34_interpreter_history_address_refuted :
+  BLOCKHASH_STORAGE_ADDRESS <> HISTORY_STORAGE_ADDRESS /\
+  forall W, w_spec W = 18 ->
+    warm_preloaded W HISTORY_STORAGE_ADDRESS = (HISTORY_STORAGE_ADDRESS =? w_coinbase W) /\
+    warm_preloaded W BLOCKHASH_STORAGE_ADDRESS = true.
+Proof. exact history_address_differs. Qed.
+
+(* the recipient of a call transaction and the delegation target its code designates are warm
+   after the first frame, whatever it does *)
+Theorem C34_interpreter_recipient_is_warm :
+  forall W f to G2 G3 r,
+    tx_pre_state W = Some G2 -> WF (gdb W (gstate_new W)) (gs (gstate_new W)) -> 0 <= w_value W ->
+    do_call W (exec_nc f W) G2 (EvmEtherProofs.tx_call W to) = XDone (G3, r) ->
+    acc_warm (gdb W G2) (gs G3) to = true /\
+    (forall t, deleg_target (gdb W G2) (gs G2) to = Some t -> acc_warm (gdb W G2) (gs G3) t = true).
+Proof. exact tx_recipient_warm. Qed.
+
+(* transaction-level pre-warming is never forgotten: whatever the first frame does (it may
+   revert or halt as a whole, with any nesting of reverting frames inside), every address of the
+   warm set above and every access-list slot is warm afterwards *)
+Theorem C34_interpreter_tx_level_warming_never_forgotten :
+  forall W f to G2 G3 r,
+    tx_pre_state W = Some G2 -> WF (gdb W (gstate_new W)) (gs (gstate_new W)) -> 0 <= w_value W ->
+    do_call W (exec_nc f W) G2 (EvmEtherProofs.tx_call W to) = XDone (G3, r) ->
+    (forall a, pre_warm_model W a = true -> acc_warm (gdb W G2) (gs G3) a = true) /\
+    (forall a k, al_slot (w_access_list W) a k = true -> slot_warm (gdb W G2) (gs G3) a k = true).
+Proof. exact tx_level_warm_survives. Qed.
+
+(* non-vacuity.  CANCUN; access list [(0x1000, [9])]; the code of 0x1000 calls itself with one
+   byte of input; the child (input present) reads slot 7 and reverts; the parent then reads
+   slot 7 twice and slot 9 once.  Slot 7 is cold in the child AND cold again in the parent (the
+   child's access is forgotten), warm the second time in the parent; the access-list slot 9 is
+   warm; the access-list address 0x1000 is warm for the CALL.  Gas: 21000 + 2400 + 1900
+   intrinsic; 35 for the parent's pushes etc. + 3 memory + 100 warm CALL; 27 + 2100 in the child;
+   2 + (5 + 2100) + (5 + 100) + (5 + 100) in the parent = 29882. *)
+Definition exa_code : list Z :=
+  [0x36; 0x60;0x21; 0x57;
+   0x60;0; 0x60;0; 0x60;1; 0x60;0; 0x60;0; 0x30; 0x61;0xc3;0x50; 0xf1; 0x50;
+   0x60;7; 0x54; 0x50;  0x60;7; 0x54; 0x50;  0x60;9; 0x54; 0x50;  0x00;
+   0x5b; 0x60;7; 0x54; 0x50; 0x60;0; 0x60;0; 0xfd].
+Definition exa_world : Step.world :=
+  Step.mkW 17 (E.mkEnv (E.mainnet_cfg 1) (E.mkBlock (2^256-1) 0 true (Some 1))
+                  (E.mkTx 200000 1 false 0 [] (Some 7) None [1] None [] None None))
+      0xCA11E4 (Some 0x1000) 0 [] [] [(0x1000, [9])] [] 0xC01BBA5E 100 1700000000 0 0x1234
+      [(0x1000, (5, 1, 77)); (0xCA11E4, (10^30, 7, 0))]
+      [(0x1000, 7, 11); (0x1000, 9, 12)] [(77, exa_code)] [].
+Definition exa_G2 : gstate :=
+  match tx_pre_state exa_world with Some G => G | None => gstate_new exa_world end.
+(* the answers to the SLOADs along a history, with their keys *)
+Definition sload_answers (d : Host.db) (sc : Host.jstate * list Host.checkpoint_t) (h : list Host.hop) :=
+  concat (map (fun p => match fst p with Host.HSload _ k => [(k, snd p)] | _ => [] end)
+              (combine h (model_trace d sc h))).
+
+Lemma exa_WF0 : WF (gdb exa_world (gstate_new exa_world)) (gs (gstate_new exa_world)).
+Proof.
+  split; [split|split].
+  - intros a acc H. discriminate.
+  - intros a b n c. cbn [gdb the_db Host.db_basic]. unfold exa_world. cbn [w_accounts acc_lookup].
+    destruct (0x1000 =? a); [intros [= <- _ _]; unfold_pows; lia|].
+    destruct (0xCA11E4 =? a); [intros [= <- _ _]; unfold_pows; lia|discriminate].
+  - intros a acc H. discriminate.
+  - cbn. congruence.
+Qed.
+
+Example C34_interpreter_example :
+  tx_pre_state exa_world = Some exa_G2 /\
+  WF (gdb exa_world exa_G2) (gs exa_G2) /\
+  (match do_call_h exa_world (exec_nc_h 100 exa_world) exa_G2 (EvmEtherProofs.tx_call exa_world 0x1000) with
+   | XDone (G3, r, h) =>
+       ir_res r = R_Stop /\
+       sload_answers (gdb exa_world exa_G2) (gs exa_G2, []) h = [(7, [true]); (7, [true]); (7, [false]); (9, [false])] /\
+       (* the CALL's load of the access-list address 0x1000 is warm *)
+       nth 6 (model_trace (gdb exa_world exa_G2) (gs exa_G2, []) h) [] = [false]
+   | _ => False end) /\
+  (match run_tx 100 exa_world with
+   | XDone t => tr_class t = 0 /\ tr_gas_used t = 29882 /\
+                29882 = 21000 + 2400 + 1900 + (35 + 3 + 100) + (27 + 2100) + 2 + (5 + 2100) + (5 + 100) + (5 + 100)
+   | _ => False end).
+Proof.
+  assert (E : tx_pre_state exa_world = Some exa_G2).
+  { unfold exa_G2. destruct (tx_pre_state exa_world) eqn:E0; [reflexivity|]. vm_compute in E0. discriminate. }
+  split; [exact E|]. split; [exact (tx_pre_state_WF exa_world exa_G2 E exa_WF0)|].
+  split; vm_compute; repeat split; reflexivity.
+Qed.
